@@ -20,6 +20,7 @@ import MdModel.Prelude
 import MdModel.Dump
 import MdModel.DumpFull
 import MdModel.Encode
+import MdModel.TimeFmt
 namespace MdModel.Bytes
 open MdModel MdModel.Dump
 
@@ -300,6 +301,7 @@ def answerRead (ms : MemSizes) (b : Bytes) : String :=
 /-- line-protocol entry point of this model (engine(s): read, roundtrip) -/
 def handle (engine : String) (args : List String) : String :=
   match engine, args with
+  | "read", "timefmt" :: rest => MdModel.TimeFmt.handle rest   -- format_time_t / format_system_time (MdModel.TimeFmt)
   | "read", [hex] =>
     match Proto.unhex hex with
     | none => "bad-op"
